@@ -11,6 +11,9 @@ T = {
  "C01": ("property-based testing (byte-stream PBT, region-targeted (un,vn) shapes, refint exact-product oracle) + libFuzzer in thorough",
          "Generated-input search over every multiplication entry point with (un,vn) shapes aimed at each branch of the size dispatch (basecase, chunked basecase, Toom-42/32/3/53/4/8h, FFT incl. direct mpn_mul_fft_main calls) and limb contents incl. all-ones; each product is compared limb by limb with an independent reference bignum (modular fingerprints above 24000 limbs), under ASan/UBSan with guard limbs. Exploration: the property is a universally quantified functional equation with an exact executable oracle.",
          "DESIGN.md section 5 C01"),
+ "C02": ("property-based testing (byte-stream PBT, backward-constructed dividends n=q*d+r, refint oracle) + libFuzzer in thorough",
+         "Generated-input search over the mpn and mpz division families: dividends are constructed backwards from chosen quotients/remainders (all-ones quotient limbs, r in {0,d-1}, dividend prefixes equal to the divisor) with divisor sizes on both sides of the schoolbook/divide-and-conquer/inverse crossovers; q, r, rounding direction, remainder sign, _ui return values and the divisibility/congruence predicates (incl. d=0) are decided by an independent reference bignum under ASan/UBSan. Exploration: universally quantified functional equation with an exact executable oracle.",
+         "DESIGN.md section 5 C02"),
  "C03": ("property-based testing (byte-stream PBT, refint oracle, guard limbs) + libFuzzer in thorough",
          "Generated-input search: every mpn/mpz add/sub/neg/shift/copy entry point is called on generated lengths, limb styles, constructed carry chains and every permitted overlap; results, returned carries and untouched guard limbs are compared with an independent reference bignum under ASan/UBSan. Exploration is the right level: the property quantifies over all inputs and an executable exact oracle exists.",
          "DESIGN.md section 5 C03"),
